@@ -27,6 +27,10 @@ CHECKS = {
     'C09': ('model_checking', 'cat/pad/diag/mprod/to_ttm/conj/clone against the dense operation for all core, fill and factor values per structure (pad fill value symbolic, so 0 and non-zero are both covered).', '4 C09'),
     'C10': ('model_checking', 'reshape / permute / to_qtt on structurally-orthogonal inputs with symbolic magnitudes and symbolic eps (exact QR/SVD models), qtt_to_tens on arbitrary symbolic cores: requested shape exactly, '
             'error <= c*eps*norm per path, and exact equality at the default eps (decides sign/scale preservation under the positive-diagonal QR convention).', '4 C10'),
+    'C11': ('model_checking', 'PARTIAL: decides only the structural clause "fast_matvec, dmrg_hadamard, amen_mv and amen_mm return a TT object of the correct kind and shape with a well-formed rank chain and raise nothing, '
+            'for every pair of compatible operands incl. order 1 and 2, with a random or user-supplied initial guess"; the accuracy clause (convergence of a randomised floating-point sweep) is not encodable and not claimed. '
+            'The real DMRG/AMEn source is executed with every floating value abstracted to HAVOC (any value; each comparison an independent nondeterministic choice), so every outcome of the factorizations, rank truncations, '
+            'residual and convergence tests is a path; shapes, ranks and loop structure stay exact.', '4 C11'),
     'C14': ('model_checking', 'PARTIAL: decides only the clause "dmrg_cross calls the user function with an M x d int64 index matrix whose column k lies in [0, N[k])" and the absence of shape/index errors, '
             'not the accuracy clause (convergence of a randomised floating-point iteration is not encodable) and not function_interpolate. The real dmrg_cross / _maxvol source is executed with every floating value '
             'abstracted to HAVOC (any value; each comparison an independent nondeterministic choice), so every outcome of pivoting, rank truncation and the convergence test is a path; the integer side '
